@@ -355,6 +355,15 @@ impl<'a, 'tcx> BodyCx<'a, 'tcx> {
             let a = self.cx.generic_args(u.args);
             v.push(("def_args", a));
         }
+        // a reference to a `static` item: name the item, so that tables declared `static` are found like `const` ones
+        if let mir::Const::Val(mir::ConstValue::Scalar(rustc_middle::mir::interpret::Scalar::Ptr(ptr, _)), _) = c.const_ {
+            if let Some(rustc_middle::mir::interpret::GlobalAlloc::Static(did)) = tcx.try_get_global_alloc(ptr.provenance.alloc_id()) {
+                if did.is_local() && !tcx.is_thread_local_static(did) {
+                    v.push(("def", s(self.cx.path(did))));
+                    v.push(("static", J::Bool(true)));
+                }
+            }
+        }
         match cty.kind() {
             ty::TyKind::FnDef(did, args) => {
                 v.push(("fn", s(self.cx.path(*did))));
